@@ -475,6 +475,34 @@ func init() {
 					}
 				})
 			}
+			// every byte 0x00..0xFF alone in a name and in a value: appended and read back, and in a query text, under three configurations
+			for _, cn := range []string{"", "skipEq", "acceptInvalid"} {
+				cfg := cfgFromDesc(cn)
+				c.Pool.Run(256, func(d *Driver, i int) {
+					b := string([]byte{byte(i)})
+					name, value := "n"+b+"x", "v"+b
+					u, err := cfg.Parser.Parse("https://h/p")
+					if err != nil {
+						return
+					}
+					u.SearchParams().Append(name, value)
+					u.SearchParams().Append(b, "")
+					ser := u.SearchParams().String()
+					back := formParse(ser)
+					want := []string{name, value, b, ""}
+					cs := Case{Kind: "unit", Cfg: cfg.Desc, Input: name + "\x1f" + value, Family: "byte-pairs", Index: i}
+					c.Count("bytepair\x00"+cn+b, true, "byte-pairs")
+					if cn != "acceptInvalid" && toValid(strings.Join(back, "\x00")) != toValid(strings.Join(want, "\x00")) {
+						c.Report(Finding{Class: "violation", What: fmt.Sprintf("the pairs %q serialize to %q, which parses to %q", want, ser, back), Case: cs})
+					}
+					if u.Query() != ser {
+						c.Report(Finding{Class: "violation", What: fmt.Sprintf("Query %q differs from the list's serialization %q", u.Query(), ser), Case: cs})
+					}
+					q := "a" + b + "c=1" + b + "&" + b + "=" + b
+					ops := []Op{{K: "s", W: 7, A: q}, {K: "q", A: "a" + b + "c"}, {K: "a", A: name, B: value}, {K: "q", A: name}, {K: "o"}}
+					c.cmpHist(d, cfg, nil, "http://h/", ops, allButVerrs, "byte-pairs", i)
+				})
+			}
 			// parsing of arbitrary queries and round trip of arbitrary lists
 			c.Pool.Run(15000*c.Scale, func(d *Driver, i int) {
 				r := rng.Fork(i)
